@@ -567,7 +567,7 @@ func (c Cell) vEdgeIsClosest(p Point, uHi bool) bool {
 // edgeDistance reports the distance from a Point P to a given Cell edge. The point
 // P is given by its dot product, and the uv edge by its normal in the
 // given coordinate value.
-func edgeDistance(ij, uv float64) s1.ChordAngle {
+func edgeDistance(ij, uv, along, w float64) s1.ChordAngle {
 	// Let P by the target point and let R be the closest point on the given
 	// edge AB.  The desired distance PR can be expressed as PR^2 = PQ^2 + QR^2
 	// where Q is the point P projected onto the plane through the great circle
@@ -579,7 +579,10 @@ func edgeDistance(ij, uv float64) s1.ChordAngle {
 	// We can compute the distance QR as (1 - OQ) where O is the sphere origin,
 	// and we can compute OQ^2 = 1 - PQ^2 using the Pythagorean theorem.
 	// (This calculation loses accuracy as angle POQ approaches Pi/2.)
-	qr := 1 - math.Sqrt(1-pq2)
+	// OQ^2 is computed as a sum of squares of the two in-plane components of P
+	// (no cancellation, never negative) rather than as 1 - PQ^2.
+	oq2 := along*along + (w*w)/(1+uv*uv)
+	qr := 1 - math.Sqrt(oq2)
 	return s1.ChordAngleFromSquaredLength(pq2 + qr*qr)
 }
 
@@ -601,25 +604,25 @@ func (c Cell) distanceInternal(targetXYZ Point, toInterior bool) s1.ChordAngle {
 	if dir00 < 0 {
 		inside = false // Target is to the left of the cell
 		if c.vEdgeIsClosest(target, false) {
-			return edgeDistance(-dir00, c.uv.X.Lo)
+			return edgeDistance(-dir00, c.uv.X.Lo, target.Y, c.uv.X.Lo*target.X+target.Z)
 		}
 	}
 	if dir01 > 0 {
 		inside = false // Target is to the right of the cell
 		if c.vEdgeIsClosest(target, true) {
-			return edgeDistance(dir01, c.uv.X.Hi)
+			return edgeDistance(dir01, c.uv.X.Hi, target.Y, c.uv.X.Hi*target.X+target.Z)
 		}
 	}
 	if dir10 < 0 {
 		inside = false // Target is below the cell
 		if c.uEdgeIsClosest(target, false) {
-			return edgeDistance(-dir10, c.uv.Y.Lo)
+			return edgeDistance(-dir10, c.uv.Y.Lo, target.X, c.uv.Y.Lo*target.Y+target.Z)
 		}
 	}
 	if dir11 > 0 {
 		inside = false // Target is above the cell
 		if c.uEdgeIsClosest(target, true) {
-			return edgeDistance(dir11, c.uv.Y.Hi)
+			return edgeDistance(dir11, c.uv.Y.Hi, target.X, c.uv.Y.Hi*target.Y+target.Z)
 		}
 	}
 	if inside {
@@ -630,10 +633,10 @@ func (c Cell) distanceInternal(targetXYZ Point, toInterior bool) s1.ChordAngle {
 		// arbitrary quadrilaterals after they are projected onto the sphere.
 		// Therefore the simplest approach is just to find the minimum distance to
 		// any of the four edges.
-		return minChordAngle(edgeDistance(-dir00, c.uv.X.Lo),
-			edgeDistance(dir01, c.uv.X.Hi),
-			edgeDistance(-dir10, c.uv.Y.Lo),
-			edgeDistance(dir11, c.uv.Y.Hi))
+		return minChordAngle(edgeDistance(-dir00, c.uv.X.Lo, target.Y, c.uv.X.Lo*target.X+target.Z),
+			edgeDistance(dir01, c.uv.X.Hi, target.Y, c.uv.X.Hi*target.X+target.Z),
+			edgeDistance(-dir10, c.uv.Y.Lo, target.X, c.uv.Y.Lo*target.Y+target.Z),
+			edgeDistance(dir11, c.uv.Y.Hi, target.X, c.uv.Y.Hi*target.Y+target.Z))
 	}
 
 	// Otherwise, the closest point is one of the four cell vertices. Note that
